@@ -16,7 +16,7 @@ pub fn install_hook() {
         if std::env::var("VERIF_LOUD").is_ok() {
             eprintln!("PANIC: {} at {:?}", msg, info.location());
         }
-        if msg.contains("was expected to be called") {
+        if classify(&msg).0 == "count" {
             LOCK_AT_VERIFY.store(injectorpp::interface::injector::__verif_lock_state() as i64, SeqCst);
         }
         if let Ok(mut l) = LAST.lock() {
